@@ -68,7 +68,7 @@ Proof.
   split; [exact Hv|]. split; [exact HP|].
   apply Forall_forall. intros e He. apply in_map_iff in He as (e0 & <- & He0).
   rewrite Forall_forall in Ht. specialize (Ht e0 He0).
-  destruct e0 as [r off w al| | |]; try exact I.
+  destruct e0 as [r off w al| | |]; try exact I; try exact Ht.
   destruct r; [|exact Ht]. cbn [shift_ev load_ok] in Ht |- *.
   rewrite skipn_length in Ht.
   destruct Ht as [Hb Hal]. split; [lia|]. intros E. specialize (Hal E).
